@@ -17,6 +17,7 @@ Case grammar (one line = one table + a list of queries, every query on a copy of
  query2: I x y | C i j m   ((m+1)^2 sub-grid of the cell (i,j))
 Output: the numbers in order, or EXIT when the library terminates the process."""
 import math
+import sys
 from fractions import Fraction
 from vcheck import Case, hx, flist
 
@@ -26,23 +27,44 @@ TOL = (1e-12, 1e-300)
 RULE = ("a case = one table with its list of queries; non-trivial = 1-D table on a non-uniform grid with at least one interior knot where the slope "
         "limiter is active (dy_i != p_i) and at least one where it is inactive, or a 2-D grid with non-uniform spacing on both axes and >= 2x2 cells; "
         "distinct by case text")
-LEVEL_TEXT = ("Theorems (Coq, over the reals, for every table of length N >= 3 with strictly increasing abscissae and every query point): the model of "
-              "Interpolate returns y_i at x_i; on every segment it stays between y_j and y_{j+1} and is monotone; limiter bounds for first, last and interior "
-              "knots; value and first derivative agree from both sides at every knot and the curve is differentiable on the open domain with derivative "
-              "Derivative(.,1); Derivative(.,k) for k=1,2,3 is the k-th derivative of the segment polynomial and 0 = the true value for k >= 4; straight-line "
-              "data and parabola data with inactive limiter are reproduced exactly; unit factors x_dim/f_dim > 0 keep the table valid; Locate on a fresh "
-              "object returns the segment containing x; the bilinear interpolant returns node values at nodes, stays within the corners' min/max, agrees "
-              "on shared cell edges and reproduces bilinear functions. The same Gallina terms are extracted and run against the C++ classes on every run "
+LEVEL_TEXT = ("Theorems (Coq, over the reals, unbounded in the table length; all listed in evidence.coverage.theorems). For every table of length N >= 3 with strictly "
+              "increasing abscissae: the model of Interpolate returns y_i at x_i; on every segment it stays between y_j and y_{j+1} and is monotone; over a whole run "
+              "of knots a..b with monotone data the curve is monotone on [x_a, x_b] (C01_monotone_on_run, induction over the segments), no strict local extremum lies "
+              "strictly inside a segment (C01_no_interior_strict_extremum), every value on the domain lies between two tabulated values (C01_global_range); limiter "
+              "bounds for first, last and interior knots; value and first derivative agree from both sides at every knot; Locate is total: it answers exactly on "
+              "(x_0 - 1% h_0, x_{N-1} + 1% h_{N-2}) with segment 0 / N-2 outside the table and a containing segment inside, Exit elsewhere (C01_locate_total); the curve is "
+              "differentiable with derivative Derivative(.,1), hence continuous, at every point where the library answers, end knots and extrapolation zone included "
+              "(C01_curve_differentiable_everywhere); Derivative(.,k), k >= 1, is the k-th derivative of the curve inside segments, at the end knots and in the zone "
+              "(C01_derivatives_inside, C01_derivatives_at_ends), of the segment polynomial at interior knots, 0 for k >= 4, and Derivative(.,0) = Interpolate for every object "
+              "and every arithmetic, doubles included (C01_derivative_order_0, over abstract NumOps); straight-line data and parabola data with inactive limiter are reproduced "
+              "exactly, value and all three derivatives, at every query point including the zone (C01_linear_exact_everywhere, C01_parabola_exact_everywhere). Constructors: "
+              "the model follows the repaired order of the code (finding F45, /repo 94355d7: length checks, unit conversion of both tables, then the strict-increase loop on "
+              "the CONVERTED abscissae). For every arithmetic, the doubles included, with no premise on the multiplication: Interpolation(xs, ys, x_dim, f_dim) returns an "
+              "object iff the lengths are equal, N >= 2 and the converted abscissae pass the strict-increase loop, exits iff not, and every object it returns stores a "
+              "strictly increasing table of N >= 2 points -- a conversion that rounds two abscissae onto one double or onto inf, inf cannot leave a repeated abscissa in an "
+              "object (C01_constructor_tests_converted_abscissae, over abstract NumOps; non-vacuity includes an arithmetic with a rounding multiplication in which given "
+              "strictly increasing abscissae are rejected); when x_dim is not > 0 nothing is converted (C01_no_conversion_without_positive_unit); over the reals the guard on "
+              "the converted abscissae is equivalent to strict increase of the given ones (C01_constructor_guard_over_reals), so there the constructor builds the object "
+              "exactly for equal lengths, N >= 2, strictly increasing abscissae, exits for every other input, and everything it returns comes from such a table; "
+              "the row constructor is the list constructor on the two columns and exits on any row of length != 2 "
+              "(both in C01_constructors_complete); two-point tables give the chord (C01_two_point_chord). Which double tables collapse under a given x_dim is a fact "
+              "about IEEE rounding, not a theorem: the generator class unit-collapse (abscissae 1..3 ulp apart with x_dim 0.6, 0.1, 1/3, ...; tops overflowing to inf, inf; "
+              "subnormal abscissae; near misses that must be accepted; 1D lists, rows, and one axis of a 2D grid) checks exit-in-the-constructor on both sides and by S4. 2D: node values at nodes, within the corners' min/max, agreement on shared "
+              "cell edges, bilinear functions reproduced; at every point of the domain rectangle the value is the bilinear form of a containing cell and within any bounds of the "
+              "data (C01_bilinear_global_range); whatever the grid constructor accepts is a valid grid; the data-table constructor builds the "
+              "grid constructor's object for the table of every valid grid, and EVERY table it accepts yields a valid grid with N_x N_y rows that returns each row's f at that "
+              "row's (x, y), unit factors included (both in C01_constructors2_sound). The same Gallina terms are extracted and run against the C++ classes on every run "
               "(bit-identical on the generated cases); all clauses are also evaluated on the implementation's output (S4) with a-priori rounding slack. "
-              "Not a theorem: behaviour in floating point (rounding), which is covered by the correspondence run and S4 only; the history dependence of "
-              "Locate (property C09). The data-table constructor of Interpolation_2D is modelled (sort and unique by their specification) and "
-              "proved to build the object of the grid constructor for the table of every valid grid; malformed tables are covered by correspondence only.")
+              "Not theorems: behaviour in floating point (rounding) -- correspondence run and S4 only, except C01_derivative_order_0; joint continuity of the 2D interpolant as a "
+              "function of (x, y) is proved in the form 'closed-cell bilinear form + agreement on shared edges', not as a topological continuity statement; the 2D extrapolation "
+              "zone and which malformed data tables are rejected (the accepted ones are covered by the soundness theorem) are covered by correspondence only; the history "
+              "dependence of Locate is property C09, the prefactor C08. std::sort / std::unique are modelled by their specification.")
 LEVEL_NOTE = ("Coq 8.16.1 kernel; theorems over R use the standard library's real-number axioms and Coquelicot (listed in the evidence); hand-written model "
               "tied by differential correspondence (extraction with ExtrOcamlBasic only); pow(x,k) for k=2,3 is modelled by powerRZ in R and libm pow in the float instance")
 TRUSTED = ["std::pow with exponents 2.0 and 3.0 is modelled by npowi (powerRZ on R, libm pow on doubles)",
            "every query is made on a copy of the freshly constructed object (the search state machine is property C09), except in the history modes h1 / h2",
            "std::sort / std::unique in the data-table constructor are modelled by their specification (insertion sort with operator<, first element of each run kept)"]
-ASSUMPTIONS = ["theorems assume N >= 3, strictly increasing abscissae, real arithmetic; N = 2 tables and malformed tables are covered by correspondence only"]
+ASSUMPTIONS = ["the shape theorems assume N >= 3, strictly increasing abscissae, real arithmetic; N = 2 tables have the chord theorem only; the constructor guards are characterised completely (1D) resp. soundly (2D data table); rejected malformed 2D tables are covered by correspondence only"]
 
 
 # ----------------------------------------------------------------------------------------------- generators
@@ -174,6 +196,12 @@ def queries_for(rng, xs, budget=60):
             xl = xs[0] - f * tl; xr = xs[-1] + f * tr
             if abs(xl - xs[0]) < tl and xl < xs[0]: qs += [f"I {hx(xl)}", f"L {hx(xl)}", f"D 1 {hx(xl)}"]
             if abs(xr - xs[-1]) < tr and xr > xs[-1]: qs += [f"I {hx(xr)}", f"L {hx(xr)}", f"D 2 {hx(xr)}"]
+            # every order in the zone (theorems C01_derivatives_at_ends, C01_derivative_order_0); no draw from rng
+            if f == 0.9:
+                if abs(xl - xs[0]) < tl and xl < xs[0]: qs += [f"D 0 {hx(xl)}", f"D 2 {hx(xl)}", f"D 3 {hx(xl)}"]
+                if abs(xr - xs[-1]) < tr and xr > xs[-1]: qs += [f"D 0 {hx(xr)}", f"D 1 {hx(xr)}", f"D 3 {hx(xr)}"]
+        # all orders at the two end knots, where the curve is one polynomial on both sides
+        for kk in (0, 1, 2, 3): qs += [f"D {kk} {hx(xs[0])}", f"D {kk} {hx(xs[-1])}"]
     return qs
 
 
@@ -511,6 +539,93 @@ def struct_cases_2d(rng, n, malformed=True):
     return cs
 
 
+# tables on which the unit conversion collapses neighbouring abscissae (finding F45, repaired in /repo 94355d7: the strict-increase test runs
+# on the CONVERTED abscissae).  Abscissae 1..3 ulp apart, strictly increasing as given, with an x_dim whose rounding multiplication sends
+# two of them onto one double; tables whose top (bottom) overflows to inf, inf (-inf, -inf); subnormal abscissae halved onto each other.
+# Expected: exit in the constructor.  The near misses (same construction, no two converted abscissae equal) must be accepted.
+COLLAPSE_DIMS = [0.6, 0.1, 1.0 / 3.0, 0.3, 0.7, 0.9, 1e-3, 0.15, 2.0 / 3.0, 1.1, 1.7, 3.3, 1e3]
+
+
+def collapse_table(rng):
+    """(xs, ys, xd, kind) with xs strictly increasing as given; kind in collapse / near / overflow / subnormal"""
+    r = rng.random()
+    N = rng.choice([3, 4, 5, 7, 9, 12])
+    if r < 0.7:
+        want_near = rng.random() < 0.3
+        for _ in range(200):
+            xd = rng.choice(COLLAPSE_DIMS) if rng.random() < 0.8 else 10 ** rng.uniform(-3, 3)
+            v = rng.choice([1.9, rng.uniform(1.0, 2.0), rng.uniform(0.5, 100.0), -rng.uniform(0.5, 100.0), 10 ** rng.uniform(-8, 8)])
+            m = rng.choice([2, 3, 3, 4]); cl = [v]
+            for _k in range(m - 1):
+                nx = cl[-1]
+                for _u in range(rng.choice([1, 1, 2, 3])): nx = math.nextafter(nx, math.inf)
+                cl.append(nx)
+            w = abs(v) * rng.choice([0.05, 0.5, 1.0]) + 1e-300
+            nl = rng.randint(0, N - 1); nr = max(0, N - 1 - nl)
+            left = [cl[0] - w * (k + 1) * rng.uniform(0.5, 1.0) - w * k for k in range(nl)][::-1]
+            right = [cl[-1] + w * (k + 1) * rng.uniform(0.5, 1.0) + w * k for k in range(nr)]
+            xs = left + cl + right
+            if not all(b > a for a, b in zip(xs, xs[1:])): continue
+            sx = scaled(xd, xs); col = any(b <= a for a, b in zip(sx, sx[1:]))
+            if col != want_near:
+                k0 = len(left); yv = rng.gauss(0, 1)
+                ys = [float(i) * rng.choice([1.0, -0.5]) + rng.gauss(0, 0.1) for i in range(len(xs))]
+                if not col:
+                    for i in range(max(0, k0 - 1), min(len(xs), k0 + m + 1)): ys[i] = yv          # plateau over the cluster and its neighbours
+                return xs, ys, xd, "collapse" if col else "near"
+    if rng.random() < 0.75:
+        # top (or, mirrored, bottom) of the table overflows: >= 2 converted abscissae are inf (-inf)
+        xd = rng.choice([2.0, 10.0, 1e3, 1.0000000000000002, 1.5])
+        big = sys.float_info.max / xd; cand = set()
+        while len(cand) < rng.choice([2, 2, 3]):
+            t = big * (1.0 + rng.uniform(1e-3, 0.5)) if rng.random() < 0.6 else sys.float_info.max * (1.0 - rng.randint(0, 3) * 2.0 ** -53)
+            if t < math.inf and t * xd == math.inf: cand.add(t)
+        top = sorted(cand)
+        lo = sorted(set(rng.uniform(-1.0, 1.0) * big * 0.5 for _ in range(max(1, N - len(top)))))
+        xs = lo + top
+        if rng.random() < 0.3: xs = [-x for x in xs][::-1]
+        return xs, [rng.gauss(0, 1) for _ in xs], xd, "overflow"
+    # subnormal abscissae: the conversion scales neighbours down onto one double
+    for _ in range(40):
+        xd = rng.choice([0.5, 0.25, 0.6, 0.1])
+        a = rng.randint(1, 40); xs = [(a + i) * 5e-324 for i in range(N)]
+        if rng.random() < 0.5: xs = [x - (a + N // 2) * 5e-324 for x in xs]
+        sx = scaled(xd, xs)
+        if any(b <= a_ for a_, b in zip(sx, sx[1:])): break
+    else: xd = 0.25      # three consecutive multiples of 2^-1074 divided by 4 never stay distinct
+    return xs, [rng.gauss(0, 1) for _ in xs], xd, "subnormal"
+
+
+def collapse_cases(rng, n):
+    cs = []
+    for _ in range(n):
+        xs, ys, xd, kind = collapse_table(rng)
+        fd = rng.choice([-1.0, -1.0, 2.0, 0.6])
+        sx = scaled(xd, xs); ok = all(b > a for a, b in zip(sx, sx[1:]))
+        if ok: qs = [f"{rng.choice(['I', 'L'])} {hx(x)}" for x in sx]
+        else: qs = [f"{rng.choice(['I', 'L', 'D 1'])} {hx(rng.choice(sx))}"]
+        tags = ("1d", "unit-collapse", kind)
+        w = rng.random()
+        if w < 0.55: cs.append(Case(line1("t1", xd, fd, xs, ys, qs), tags))
+        elif w < 0.7: cs.append(Case(line1("h1", xd, fd, xs, ys, qs), tags))
+        elif w < 0.85:
+            rows = [[x, y] for x, y in zip(xs, ys)]
+            cs.append(Case(f"tr {hx(xd)} {hx(fd)} {len(rows)} " + " ".join(flist(r) for r in rows) + f" {len(qs)} " + " ".join(qs), ("rows",) + tags[1:]))
+        elif not ok:
+            # the same on one axis of a 2-D grid (Interpolation_2D converts first and hands the converted axis to Interpolation)
+            oth = [0.0, 1.0, 3.0]; f = [[rng.gauss(0, 1) for _y in oth] for _x in xs]
+            if rng.random() < 0.5:
+                cs.append(Case(f"t2 {hx(xd)} {hx(-1.0)} {hx(fd)} {flist(xs)} {flist(oth)} {len(f)} " + " ".join(flist(r) for r in f) + f" 1 I {hx(sx[0])} {hx(0.0)}", ("2d",) + tags[1:]))
+            else:
+                ft = [[f[i][j] for i in range(len(xs))] for j in range(len(oth))]
+                cs.append(Case(f"t2 {hx(-1.0)} {hx(xd)} {hx(fd)} {flist(oth)} {flist(xs)} {len(ft)} " + " ".join(flist(r) for r in ft) + f" 1 I {hx(0.0)} {hx(sx[0])}", ("2d",) + tags[1:]))
+        else: cs.append(Case(line1("t1", xd, fd, xs, ys, qs), tags))
+    # the reported table of F45
+    v = 1.9; xs = [0.0, 1.0, v, math.nextafter(v, 2.0), math.nextafter(math.nextafter(v, 2.0), 2.0), 2.0, 3.0]
+    cs.append(Case(line1("t1", 0.6, -1.0, xs, [float(i) for i in range(7)], ["I " + hx(float.fromhex("0x1.23d70a3d70a3ep+0"))]), ("1d", "unit-collapse", "collapse", "F45")))
+    return cs
+
+
 def generate(rng, tier):
     big = tier != "quick"; cs = []
     ntab = 6000 if big else 900
@@ -621,6 +736,7 @@ def generate(rng, tier):
     # points, the data-table constructor of Interpolation_2D, live 2-D objects
     cs += struct_cases_1d(rng, 2500 if big else 280)
     cs += struct_cases_2d(rng, 1500 if big else 150)
+    cs += collapse_cases(rng, 3000 if big else 300)
     return cs
 
 
@@ -683,8 +799,10 @@ def parse_case(line):
     return d
 
 
-def table_ok(xs0, ys0):
-    return len(xs0) == len(ys0) and len(xs0) >= 2 and all(b > a for a, b in zip(xs0, xs0[1:]))
+def table_ok(xs0, ys0, xd=-1.0):
+    """the constructor's guard: equal lengths, N >= 2, and the CONVERTED abscissae strictly increasing (the test follows the unit conversion)"""
+    sx = scaled(xd, xs0)
+    return len(xs0) == len(ys0) and len(xs0) >= 2 and all(b > a for a, b in zip(sx, sx[1:]))
 
 
 def locate_ref(xs, x):
@@ -732,7 +850,7 @@ def compare(c, io, mo, tol):
         for q in d["qs"]: scales += [mx] * nout(q)
     else:
         xs, ys = scaled(d["xd"], d["xs0"]), scaled(d["fd"], d["ys0"])
-        if not table_ok(d["xs0"], d["ys0"]): return False, False, "outputs differ on a malformed table"
+        if not table_ok(d["xs0"], d["ys0"], d["xd"]): return False, False, "outputs differ on a malformed table"
         h, s = steffen_ref(xs, ys)
         def sc(x, k):
             j = locate_ref(xs, x)
@@ -966,13 +1084,13 @@ def expected_exit(d):
     if d["op"] == "t3" and not d["rows_ok"]: return True
     if d["op"] in OPS2:
         if len(d["f0"]) != len(d["xs0"]) or any(len(r) != len(d["ys0"]) for r in d["f0"]): return True
-        if not (len(d["xs0"]) >= 2 and all(b > a for a, b in zip(d["xs0"], d["xs0"][1:]))): return True
-        if not (len(d["ys0"]) >= 2 and all(b > a for a, b in zip(d["ys0"], d["ys0"][1:]))): return True
         xs, ys = scaled(d["xd"], d["xs0"]), scaled(d["yd"], d["ys0"])
+        if not (len(xs) >= 2 and all(b > a for a, b in zip(xs, xs[1:]))): return True       # the axes as stored (converted)
+        if not (len(ys) >= 2 and all(b > a for a, b in zip(ys, ys[1:]))): return True
         for q in d["qs"]:
             if q[0] == "I" and (locate_ref(xs, q[1]) is None or locate_ref(ys, q[2]) is None): return True
         return False
-    if not table_ok(d["xs0"], d["ys0"]): return True
+    if not table_ok(d["xs0"], d["ys0"], d["xd"]): return True
     xs = scaled(d["xd"], d["xs0"])
     for q in d["qs"]:
         x = q[1] if q[0] in ("I", "L", "K") else (q[2] if q[0] == "D" else None)
